@@ -245,7 +245,16 @@ func init() {
 			fmt.Fprintf(c.w, "entry %d %s %s %s %s %s %s %s %d\n", pid, bmx.HexField(in), bmx.HexS(s), bmx.HexField(b),
 				bmx.HexField(rbuf.Bytes()), bmx.HexField(w1.Bytes()), bmx.HexField(w2.buf), b01(unchanged && err1 == nil && err2 == nil), mode)
 		}
-		blanks := []string{"", " ", "\r", "\n", "\t \r\n", " ", "  ", "\x85", " \x00"}
+		blanks := []string{"", " ", "\r", "\n", "\t \r\n", " ", "  ", "\x85", " \x00",
+			// white space for strings.TrimSpace that is not HTML's: with a carriage return the tokenizer would rewrite
+			"\v\r\n", "\u00a0\r", "\u2028\r\n ", "\u3000\r", "\u0085\r\n\u0085", "\f\v\r", " \u2003\r\n\t", "\r\u1680", "\u205f\r\u202f", "\u200b\r", "\ufeff\r\n"}
+		for _, bl := range blanks {
+			// every blank under the shipped policies (the random loop below draws one in eight)
+			for _, name := range []string{"@UGC", "@STRICT"} {
+				pid, pol := c.shipped(name)
+				run(pid, pol, []byte(bl))
+			}
+		}
 		for i := 0; i < c.n; {
 			ops := bmx.RandPolicyOps(c.r)
 			pid, pol := c.policy(ops)
